@@ -207,7 +207,7 @@ class DryBitField(object):
 
 
 def run_history(case, check_complete=False, strict=False, dry=False,
-                length=None):
+                length=None, shared_pool=None):
     from rig.bitfield import BitField
     length = length or case["length"]
     model = Model(length)
@@ -217,6 +217,9 @@ def run_history(case, check_complete=False, strict=False, dry=False,
         with sut("BitField()"):
             bf = BitField(length)
     model.strict = strict
+    # caller-owned tag sets: per history by default; C17 passes one pool per
+    # process (a module-level constant of the user's program)
+    model.shared_sets = shared_pool if shared_pool is not None else {}
     stats = {"adds": 0, "rejected_adds": 0, "layouts": 0, "excluded": 0,
              "max_depth": 0, "filled": False, "assignments": 0}
     for step in case["steps"]:
@@ -308,8 +311,7 @@ def _do_add(model, bf, step, stats):
         # the caller keeps one set object per tag combination and passes it
         # to every definition that uses this combination
         key = tuple(tags["shared_set"])
-        pool = model.__dict__.setdefault("shared_sets", {})
-        shared = pool.setdefault(key, set(key))
+        shared = model.shared_sets.setdefault(key, set(key))
         tags = shared
     try:
         with sut("add_field", (ValueError,)):
